@@ -295,6 +295,60 @@ class SynthWorld:
         self.ctx.log("op crossover", i, j, res.ok, res.error)
         return res
 
+    def op_redeclare(self):
+        """The documented idiom `Cls.__init__.__annotations__[field] = NewType` followed by a new extraction in the same
+        process (metahandler docstrings): one base-typed field of one production gets another base type / refinement; the
+        specification, the reference and the grammar are rebuilt, the pool (programs of the old grammar) is dropped."""
+        from .spec import gen_refinement, render_type
+
+        H = self.ctx.H
+        res = OpResult("redeclare")
+        reg = self.ref.registered()
+        cands = []
+        for c in self.spec["classes"]:
+            if c["kind"] in ("data", "plain") and c["name"] in reg:
+                for i, (fn, ft) in enumerate(c["fields"]):
+                    base = ft[1] if ft[0] == "ann" else ft
+                    if fn.startswith("f") and base[0] in ("int", "float", "str", "bool") and not (ft[0] == "ann" and ft[2][0] == "Dependent"):
+                        cands.append((c, i))
+        if not cands:
+            return res
+        c, i = cands[H.draw(len(cands))]
+        fn, old = c["fields"][i]
+        kind = H.pick(["int", "float", "bool", "str", "ann-int", "ann-float", "ann-str"])
+        new = [kind] if not kind.startswith("ann-") else ["ann", [kind[4:]], gen_refinement(H, kind[4:], self.feat)]
+        if new == old:
+            return res
+        deps = []
+        src = render_type(new, deps)
+
+        def apply():
+            cls = self.built.cls[c["name"]]
+            tobj = eval(src, self.built.module.__dict__)
+            cls.__init__.__annotations__[fn] = tobj
+            if fn in getattr(cls, "__annotations__", {}):
+                cls.__annotations__[fn] = tobj
+            c["fields"][i] = [fn, new]
+            self.ref = Ref(self.spec, self.built)
+            self.built.source += f"\n{c['name']}.__init__.__annotations__[{fn!r}] = {src}  # re-declared, then extracted again\n"
+            self.grammar = self.built.extract()
+            self.pool.clear()
+            self.pheno.clear()
+            self.origin.clear()
+            return True
+
+        self.guarded(res, apply)
+        self.ctx.log("op redeclare", c["name"], fn, src, res.ok, res.error)
+        self.ctx.faults["carry_over"] += 1
+        if res.ok:
+            r2 = self.construct(max_depth=None)
+            if not r2.ok:
+                res.ok = False
+                res.error = r2.error
+                res.foreign = r2.foreign
+                res.tb = r2.tb
+        return res
+
     def random_op(self, weights=None, max_pool=40):
         """draw and execute one operation from H"""
         H = self.ctx.H
